@@ -28,11 +28,13 @@ pub struct AddSpec {
     pub e: u16,
     pub bl: u32,
     pub rem: u16,
+    /// `CacheControl::Expires(ns)` (u64::MAX = Duration::MAX); harness only
+    pub cc: Option<u64>,
 }
 
 impl AddSpec {
     pub fn simple(prio: u32, n_sym: u64) -> AddSpec {
-        AddSpec { prio, n_sym, maxc: 1, car: None, start: None, target: None, allow: false, e: 4, bl: 64, rem: 4 }
+        AddSpec { prio, n_sym, maxc: 1, car: None, start: None, target: None, allow: false, e: 4, bl: 64, rem: 4, cc: None }
     }
     pub fn line(&self) -> String {
         let (ck, cd) = match self.car {
@@ -44,8 +46,9 @@ impl AddSpec {
             None => ('n', 0),
             Some((k, d)) => (k, d),
         };
+        let cc = self.cc.map(|x| format!(" x{}", x)).unwrap_or_default();
         format!(
-            "sched add {} {} {} {} {} {} {} {} {} {} {} {}",
+            "sched add {} {} {} {} {} {} {} {} {} {} {} {}{}",
             self.prio,
             self.n_sym,
             self.maxc,
@@ -57,7 +60,8 @@ impl AddSpec {
             self.allow as u8,
             self.e,
             self.bl,
-            self.rem
+            self.rem,
+            cc
         )
     }
 }
@@ -357,7 +361,7 @@ fn rand_add(rng: &mut Rng, cfg: &NewSpec, now: u64, step: u64) -> AddSpec {
         10 => Some(('t', now + rng.range(0, 30) * step + rng.below(3))),
         _ => Some(('t', now.saturating_sub(rng.range(0, 5) * step))),
     };
-    AddSpec { prio, n_sym, maxc, car, start, target, allow: rng.chance(1, 3), e, bl, rem: rng.range(1, e as u64) as u16 }
+    AddSpec { prio, n_sym, maxc, car, start, target, allow: rng.chance(1, 3), e, bl, rem: rng.range(1, e as u64) as u16, cc: if rng.chance(1, 12) { Some(u64::MAX) } else { None } }
 }
 
 fn random_case(r: &mut Runner, rng: &mut Rng, id: &str) {
@@ -823,6 +827,79 @@ fn clock_back_cases(r: &mut Runner) {
     }
 }
 
+/// huge durations and deadlines: `fdt_duration = Duration::MAX` (u64 overflow in the FDT Expires, repaired),
+/// `cache_control = Expires(Duration::MAX)` (SystemTime overflow while the FDT is built - in
+/// ObjectsBeingTransferred mode inside `Sender::read` - repaired), carousel delay `Duration::MAX`, start time 0 and
+/// far future, pacing targets around and above 2^53 ns where `Duration::div_f64` stops being exact
+/// (finding `C14:tick-rounding-above-2^53`); polled one ns before and exactly at every due instant
+fn huge_cases(r: &mut Runner) {
+    const Y: u64 = 31_557_600 * S;
+    let mut i = 0;
+    for full in [true, false] {
+        for (fdt_dur, cc, car) in [
+            (u64::MAX, None, None),
+            (u64::MAX - 1, None, None),
+            (3600 * S, Some(u64::MAX), None),
+            (3600 * S, Some(u64::MAX - 1), None),
+            (3600 * S, Some(1u64 << 63), Some((false, u64::MAX))),
+            (u64::MAX, Some(u64::MAX), Some((true, u64::MAX))),
+        ] {
+            i += 1;
+            r.begin(&format!("huge-dur-{}", i));
+            let cfg = NewSpec { full, fdt_car: (false, S), fdt_dur, start_id: 1, il: 1, efdt: 1400, fits: true, queues: vec![(0, 1)] };
+            r.op(cfg.line());
+            let mut a = AddSpec::simple(0, 2);
+            a.cc = cc;
+            a.car = car;
+            a.maxc = 2;
+            r.op(a.line());
+            let mut b = AddSpec::simple(0, 1);
+            b.start = Some(if i % 2 == 0 { 0 } else { u64::MAX - 1 });
+            r.op(b.line());
+            r.op(format!("sched publish {}", r.now));
+            for _ in 0..4 {
+                r.read_until_none(5000);
+                if r.dead {
+                    break;
+                }
+                r.now += 10 * S;
+            }
+            r.op("sched remove 1".into());
+            r.op("sched remove 2".into());
+            r.read_until_none(5000);
+            r.finish();
+        }
+    }
+    for kind in ['d', 't'] {
+        for target in [(1u64 << 53) - 1, (1u64 << 53) + 1, 10 * Y, 30 * Y, 1u64 << 62] {
+            for n in [1u64, 3, 7] {
+                i += 1;
+                r.begin(&format!("huge-target-{}", i));
+                let cfg = NewSpec { full: true, fdt_car: (false, 3600 * S), fdt_dur: 3600 * S, start_id: 1, il: 1, efdt: 1400, fits: true, queues: vec![(0, 1)] };
+                r.op(cfg.line());
+                let mut a = AddSpec::simple(0, n);
+                a.target = Some((kind, if kind == 't' { T0 + target } else { target }));
+                r.op(a.line());
+                r.op(format!("sched publish {}", r.now));
+                let tick = crate::eng::div_tick(target, n);
+                r.read_until_none(5000);
+                for k in 1..=n {
+                    if r.dead {
+                        break;
+                    }
+                    r.now = T0 + k * tick - 1;
+                    r.read_until_none(5000);
+                    r.now += 1;
+                    r.read_until_none(5000);
+                }
+                r.now += S;
+                r.read_until_none(5000);
+                r.finish();
+            }
+        }
+    }
+}
+
 pub fn run(ctx: &mut Ctx, _eng: &mut dyn Engine) {
     let thorough = ctx.tier_thorough;
     let seed = ctx.seed;
@@ -840,6 +917,7 @@ pub fn run(ctx: &mut Ctx, _eng: &mut dyn Engine) {
     publish_refused_cases(&mut r);
     removal2_cases(&mut r);
     clock_back_cases(&mut r);
+    huge_cases(&mut r);
     removal_cases(&mut r, thorough);
     grid_cases(&mut r, &mut rng, thorough);
     timing_cases(&mut r, &mut rng, if thorough { 3000 } else { 300 });
